@@ -325,6 +325,8 @@ class Evaluator:
             return self.bitop(st, op, a, b)
         if isinstance(a, str) or isinstance(b, str):
             raise Unsupported("string arithmetic")
+        if isinstance(a, tuple) or isinstance(b, tuple):
+            raise Unsupported("arithmetic on a true-division result")
         a, b = as_int(a), as_int(b)
         if isinstance(op, ast.Add):
             return a + b
@@ -336,6 +338,8 @@ class Evaluator:
             return self.floordiv(st, a, b, "q")
         if isinstance(op, ast.Mod):
             return self.floordiv(st, a, b, "r")
+        if isinstance(op, ast.Div):
+            return ("frac", a, b)  # only int(a / b) is modelled (truncation toward zero)
         if isinstance(op, ast.LShift) and isinstance(a, int) and isinstance(b, int):
             return a << b
         if isinstance(op, ast.Pow) and isinstance(b, int) and 0 <= b <= 4:
